@@ -538,6 +538,53 @@ func rt_12(c *core.Ctx, p *core.Prog) {
 		}
 		walk(prevScope, 0)
 		if !reset {
+			// flag form: `if !scopeSeen || prevScope != scopeID { … }` with `scopeSeen = false` on a resource change — a
+			// boolean φ that receives false on an edge under the resource test's true arm, and whose false edge leads
+			// into the scope-change arm whatever the comparison says
+			scopeArm := scopeIf.Block().Succs[0]
+			for _, b := range fn.Blocks {
+				for _, ins := range b.Instrs {
+					ph, ok := ins.(*ssa.Phi)
+					if !ok || !isBool(ph.Type()) {
+						continue
+					}
+					cleared := false
+					for k, e := range ph.Edges {
+						if bv, isB := core.ConstBool(e); isB && !bv && k < len(b.Preds) {
+							pred := b.Preds[k]
+							// the resource arm may be entered from the flag test as well as from the comparison: what counts
+							// is that the edge comes out of the arm's body
+							resArm := resIf.Block().Succs[0]
+							if core.GuardedBy(resIf, true, pred.Instrs[len(pred.Instrs)-1]) || pred == resArm || resArm.Dominates(pred) {
+								cleared = true
+							}
+						}
+					}
+					if !cleared {
+						continue
+					}
+					for _, b2 := range fn.Blocks {
+						iff := core.IfOf(b2)
+						if iff == nil {
+							continue
+						}
+						cond, falseEdge := iff.Cond, 1
+						if u, ok := cond.(*ssa.UnOp); ok && u.Op == token.NOT {
+							cond, falseEdge = u.X, 0
+						}
+						// the flag itself, or a later φ it flows into unchanged
+						if cond == ssa.Value(ph) || core.DerivesFrom(cond, func(v ssa.Value) bool { return v == ssa.Value(ph) }) && isBool(cond.Type()) {
+							if _, isPhiOrSelf := cond.(*ssa.Phi); isPhiOrSelf || cond == ssa.Value(ph) {
+								if b2.Succs[falseEdge] == scopeArm {
+									reset = true
+								}
+							}
+						}
+					}
+				}
+			}
+		}
+		if !reset {
 			msgs = append(msgs, "on a resource change the scope tracking variable is not reset: when two consecutive resources use the same scope id (e.g. both have a single scope, id 0) the rows of the second resource are appended under the first resource's scope")
 		}
 		c.Check(len(msgs) == 0, key, pos, core.FuncName(fn), "resource change resets scope tracking; both tests compare accumulated ids", strings.Join(msgs, "; "))
